@@ -299,6 +299,7 @@ pub fn run_migrations(stride: usize, out: &mut dyn Write) {
     std::panic::set_hook(Box::new(|_| {}));
     let db = rbx_reflection_database::get();
     let nodb = empty_db();
+    let known = gen::known_props(db);
     let mut classes: Vec<&str> = db.classes.keys().map(|k| k.as_ref()).collect();
     classes.sort();
     let mut n = 0usize;
@@ -319,23 +320,35 @@ pub fn run_migrations(stride: usize, out: &mut dyn Write) {
                 "BaseWrap" => "WrapTarget",
                 other => other,
             };
+            // spellings under which the NEW property can be given explicitly: its canonical name and every alias of it
+            let mut explicit_names: Vec<String> = vec![mig.new_property_name.clone()];
+            for k in &known {
+                if k.is_alias && k.canon == mig.new_property_name && k.class == cname && !explicit_names.contains(&k.name) {
+                    explicit_names.push(k.name.clone());
+                }
+            }
             for (vi, legacy) in legacy_values(&op, db).into_iter().enumerate() {
-                for with_explicit in [false, true] {
+                for explicit_mode in 0..=explicit_names.len() {
+                    let with_explicit = explicit_mode > 0;
                     n += 1;
                     if stride > 1 && n % stride != 0 && !matches!(legacy, Variant::Enum(_) | Variant::Bool(_) | Variant::ContentId(_)) {
                         continue;
                     }
                     let mut b = InstanceBuilder::new(inst_class).with_name("M").with_property(pname, legacy.clone());
+                    let explicit_name = if with_explicit { explicit_names[explicit_mode - 1].clone() } else { String::new() };
                     if with_explicit {
-                        b = b.with_property(mig.new_property_name.as_str(), explicit_value(&op));
+                        b = b.with_property(explicit_name.as_str(), explicit_value(&op));
                     }
                     let mut dom = WeakDom::new(InstanceBuilder::new("DataModel"));
                     let root = dom.root_ref();
                     let r = dom.insert(root, b);
                     let roots = [r];
-                    let mut ev = json!({"ep": format!("mig:{}.{}:{}:{}", cname, pname, vi, with_explicit as u8), "op": "mig_case",
+                    let mut ev = json!({"ep": format!("mig:{}.{}:{}:{}", cname, pname, vi, explicit_mode), "op": "mig_case",
                                         "class": inst_class, "legacy": pname, "target": mig.new_property_name, "migop": op,
                                         "explicit": with_explicit as u8, "before": pforest(&dom, &roots), "paths": {}});
+                    if with_explicit {
+                        ev["explicit_name"] = json!(explicit_name);
+                    }
                     ev["paths"] = mig_paths(&dom, &roots, &nodb, true);
                     serde_json::to_writer(&mut *out, &ev).unwrap();
                     out.write_all(b"\n").unwrap();
